@@ -3,6 +3,7 @@ package main
 import (
 	"fmt"
 	"go/ast"
+	"go/parser"
 	"go/token"
 	"go/types"
 	"regexp"
@@ -113,6 +114,10 @@ func rPanics(c *Ctx, plugins ...string) {
 
 // rR1: every accepted run emits text that parses and whose In/Out calls balance.
 func rR1(c *Ctx, plugins ...string) {
+	// built-in positive example of the assertion rule (its expected count on the tree is zero)
+	if f, err := parser.ParseFile(token.NewFileSet(), "selftest.go", "package p\nfunc f(x interface{}) int { v, ok := x.(int); _ = ok; switch x.(type) {}; return v + x.(int) }", 0); err != nil || panickingAssertion(f) == nil {
+		c.Rep.fail(Finding{Rule: "R1", Key: "R1|single-value-assertion|selftest", Kind: "undecided", Msg: "the single-value assertion rule does not fire on its built-in positive example"})
+	}
 	for _, p := range plugins {
 		for _, rs := range c.acceptedResids(p) {
 			if rs.Err != nil {
@@ -155,6 +160,65 @@ func rR1(c *Ctx, plugins ...string) {
 				return true
 			})
 			if blank {
+				continue
+			}
+			// a single-value type assertion panics when the operand is the nil interface (or holds another dynamic type): emitted
+			// code is total over the values of its argument types, so only the comma-ok form and the type switch may assert
+			if bad := panickingAssertion(rs.File); bad != nil {
+				line := rs.Fset.Position(bad.Pos()).Line
+				fn := "?"
+				where := []string{}
+				if line > 0 && line-1 < len(rs.Run.LinePos) {
+					fn = c.R.repo.funcAt(rs.Run.LinePos[line-1])
+					where = append(where, rs.Run.where(c.Repo, line))
+				}
+				c.Rep.fail(Finding{Rule: "R1", Key: fmt.Sprintf("R1|%s|%s|single-value-assertion", p, fn), Where: where, Plugin: p, Script: rs.Run.Script,
+					Msg:    fmt.Sprintf("plugin %s emits the single-value type assertion %s: it panics for a nil interface value (an item, element or result of interface type that is nil) — the generated function then neither returns nor delivers what it was given", p, exprStr(bad)),
+					Detail: "abstract path: " + rs.Run.describe() + "\nresidual:\n" + rs.Run.excerpt(40)})
+				continue
+			}
+			// TypeString is not pure: through the qualifier it registers the import of the type's package in the generated file.
+			// A type rendered on an accepted path whose text is never emitted leaves an import that nothing uses ("imported and
+			// not used": goderive exits 0, derived.gen.go does not compile)
+			unusedType := ""
+			var unusedIDs []string
+			stripOrg := func(o string) string {
+				return strings.TrimPrefix(strings.TrimPrefix(strings.TrimPrefix(o, "mangled:"), "bypass:"), "mangled:")
+			}
+			emitted := map[string]bool{} // origins of the type holes that occur in the text (a re-formatted copy counts for its original)
+			for id, h := range rs.Run.Holes {
+				if h.Kind == "TYPE" && strings.Contains(rs.Run.Text, id) {
+					emitted[stripOrg(h.Origin)] = true
+				}
+			}
+			for id, h := range rs.Run.Holes {
+				if h.Kind == "TYPE" && !emitted[stripOrg(h.Origin)] {
+					if o, ok := h.Val.(*VOpaque); ok && (o.built || (strings.HasPrefix(o.Kind, "*types.") && o.Kind != "*types.Named" && o.Kind != "*types.Alias")) {
+						// a composite the abstract input space spells out (its text is emitted through its components), or a type
+						// literal / predeclared type, whose own text names no package
+						continue
+					}
+					// likewise a type whose components (fields, elements) occur in the text: it was spelled out there
+					spelled := false
+					for _, g := range rs.Run.Holes {
+						if (g.Kind == "TYPE" || g.Kind == "NAME") && strings.Contains(rs.Run.Text, g.ID) && strings.HasPrefix(stripOrg(g.Origin), stripOrg(h.Origin)) {
+							spelled = true
+							break
+						}
+					}
+					if spelled {
+						continue
+					}
+					unusedIDs = append(unusedIDs, id)
+				}
+			}
+			sort.Strings(unusedIDs)
+			if len(unusedIDs) > 0 {
+				unusedType = unusedIDs[0]
+				h := rs.Run.Holes[unusedType]
+				c.Rep.fail(Finding{Rule: "R1", Key: fmt.Sprintf("R1|%s|type-rendered-not-emitted", p), Plugin: p, Script: rs.Run.Script,
+					Msg:    fmt.Sprintf("plugin %s renders the type %s with TypeString on an accepted path but never emits the text: rendering registers the import of the type's package, so for a type of another package derived.gen.go gets an import that nothing uses and does not compile", p, shortSym(h.Origin)),
+					Detail: "abstract path: " + rs.Run.describe() + "\nresidual:\n" + rs.Run.excerpt(40)})
 				continue
 			}
 			// the text of a type must come from TypeString (the qualifier of the generated file, which also registers the import)
@@ -849,4 +913,33 @@ func rangeOfIndexLoop(fs *ast.ForStmt) *ast.RangeStmt {
 		rx = &ast.SliceExpr{X: x, Lbrack: x.End(), Low: kl, Rbrack: x.End()}
 	}
 	return &ast.RangeStmt{For: fs.For, Key: &ast.Ident{NamePos: iv.Pos(), Name: iv.Name}, Value: &ast.Ident{NamePos: iv.Pos(), Name: elemName}, TokPos: init.TokPos, Tok: token.DEFINE, X: rx, Body: body}
+}
+
+// panickingAssertion: the first type assertion of the file that is neither the right-hand side of a two-value assignment /
+// declaration (v, ok := x.(T)) nor the guard of a type switch.
+func panickingAssertion(f *ast.File) ast.Expr {
+	safe := map[ast.Node]bool{}
+	var bad ast.Expr
+	ast.Inspect(f, func(n ast.Node) bool {
+		if bad != nil {
+			return false
+		}
+		switch x := n.(type) {
+		case *ast.AssignStmt:
+			if len(x.Lhs) == 2 && len(x.Rhs) == 1 {
+				safe[ast.Unparen(x.Rhs[0])] = true
+			}
+		case *ast.ValueSpec:
+			if len(x.Names) == 2 && len(x.Values) == 1 {
+				safe[ast.Unparen(x.Values[0])] = true
+			}
+		case *ast.TypeAssertExpr:
+			if x.Type != nil && !safe[x] {
+				bad = x
+				return false
+			}
+		}
+		return true
+	})
+	return bad
 }
